@@ -4,6 +4,7 @@ import AtreeProofs.Batch.CopyArray
 import AtreeProofs.Batch.CopyMap
 import AtreeProofs.Batch.MapContent
 import AtreeProofs.Batch.MapBuild
+import AtreeProofs.Batch.MapInvBuild
 /-
   C17 — Bulk build, copy and byte conversion give equivalent, valid, independent values.
   PROPERTY THEOREMS about the transcriptions in `AtreeModel/Array/Batch.lean`,
@@ -159,28 +160,31 @@ theorem batch_rejects_duplicates {T r : Nat} (D : DigestFn (r + 1)) (hT : legalT
 theorem batch_map_loop_accepts {T r : Nat} (D : DigestFn (r + 1)) (hT : legalThreshold T = true)
     (cfg : MCfg) (hcT : cfg.T = T) (hcL : cfg.L = r + 1) (kvs : List (MKey × Elem))
     (hkv : ∀ p ∈ kvs, KeyOk T (r + 1) D p.1 ∧ ValueOkM p.2)
-    (hs : (kvs.map (fun p => p.1.dig 0)).Pairwise (· ≤ ·)) (hd : KeysDistinct kvs) (id : SlabID) (c : Ctx) :
+    (hs : (kvs.map (fun p => p.1.dig 0)).Pairwise (· ≤ ·)) (hd : KeysDistinct kvs) (id : SlabID)
+    (hid : id.addr = cfg.addr) (c : Ctx) :
     ∃ st c', MBatch.fillLoop cfg kvs
       ({ id := id, elements := MBatch.emptyElems r, slabs := [], count := 0, prevHkey := 0 } : MBatch.FillState r) c
         = .ok (st, c') := by
-  obtain ⟨st, c', h, _⟩ := fillLoop_complete (D := D) hT ⟨hcT, hcL⟩ kvs hkv hs hd id c
+  obtain ⟨st, c', h, _⟩ := fillLoop_complete (D := D) hT ⟨hcT, hcL⟩ kvs hkv hs hd id hid c
   exact ⟨st, c', h⟩
 
-/-- `batch_map_inv`, PARTIAL: the result satisfies the map invariant `MapInv` when the input fits
-    one data slab (the element loop closes no data slab: `st.slabs = []` for its final state) —
-    with collision groups of any depth, inline or external.  Missing for the full statement: the
-    multi-slab case, i.e. the tail `LendToRight`-or-`Merge` step on map data slabs and the index
-    levels of `nextLevelMapSlabs` (the array counterpart is `batch_array_inv`, fully proved);
-    multi-slab maps are covered by the correspondence check (`VerifyMap` on every result) only. -/
-theorem batch_map_inv_partial {T r : Nat} (D : DigestFn (r + 1)) (hT : legalThreshold T = true)
-    (cfg : MCfg) (hcT : cfg.T = T) (hcL : cfg.L = r + 1) (ty seed : Nat) (kvs : List (MKey × Elem))
-    (hkv : ∀ p ∈ kvs, KeyOk T (r + 1) D p.1 ∧ ValueOkM p.2) (c : Ctx)
-    (m : OMap r) (c' : Ctx) (h : OMap.fromBatchData cfg ty seed kvs c = .ok (m, c'))
-    (hone : ∀ st cf, MBatch.fillLoop cfg kvs
-        ({ id := (c.alloc cfg.addr).1, elements := MBatch.emptyElems r, slabs := [], count := 0, prevHkey := 0 } : MBatch.FillState r)
-        (c.alloc cfg.addr).2 = .ok (st, cf) → st.slabs = []) :
-    MapInv T D m :=
-  fromBatchData_inv_partial hT ⟨hcT, hcL⟩ ty seed kvs hkv c m c' h hone
+/-- `batch_map_inv`: for every legal threshold, every digest assignment `D`, every stream of pairs
+    that is sorted by first-level digest and has pairwise different keys (keys within the key
+    limit, plain values of any size ≥ 1), and every non-zero seed, `NewMapFromBatchData` SUCCEEDS
+    and its result satisfies the map invariant `MapInv` — element tables valid at every collision
+    level, every data and index slab within the size band including the tail
+    `LendToRight`-or-`Merge` step at every level, first keys and digest order of the index slabs,
+    sibling links, count and key distinctness — keeps the seed, records type and count, and holds
+    exactly the input pairs with values in stored form. -/
+theorem batch_map_inv {T r : Nat} (D : DigestFn (r + 1)) (hT : legalThreshold T = true)
+    (cfg : MCfg) (hcT : cfg.T = T) (hcL : cfg.L = r + 1) (ty seed : Nat) (hseed : seed ≠ 0)
+    (kvs : List (MKey × Elem)) (hkv : ∀ p ∈ kvs, KeyOk T (r + 1) D p.1 ∧ ValueOkM p.2)
+    (hs : (kvs.map (fun p => p.1.dig 0)).Pairwise (· ≤ ·)) (hd : KeysDistinct kvs) (c : Ctx) :
+    ∃ (m : OMap r) (c' : Ctx), OMap.fromBatchData cfg ty seed kvs c = .ok (m, c') ∧ MapInv T D m ∧
+      m.seed = seed ∧ m.ty = ty ∧ m.count = kvs.length ∧
+      ∃ cs : List Ctx, cs.length = kvs.length ∧
+        m.toList.Perm (List.zipWith (fun p c => (p.1, storedValue cfg p.1 p.2 c)) kvs cs) :=
+  fromBatchData_inv hT ⟨hcT, hcL⟩ ty seed hseed kvs hkv hs hd c
 
 /-! ## Copy (`CanCopyNonRefSimple` / `CopyNonRefSimple`) -/
 
